@@ -37,7 +37,19 @@ let concretize_link_script (s : script) : string list =
     List.map (fun c -> "feed " ^ hex c) feeds
   | ops -> List.map (String.concat " ") ops
 
-let () = register "link" run_link_engine; register_concretizer "link" concretize_link_script
+(* codes mode (extraction cross-check, tools/coqeval.py): same parsing, same call; every observation goes
+   through the EXTRACTED serialiser of coq/Codes/CodesLink.v *)
+let link_feeds (s : script) =
+  let feeds = List.filter_map (function ["feed"; h] -> Some (unhex h) | _ -> None) s.ops in
+  if List.length feeds <> List.length s.ops then failwith "link engine: only feed ops are modelled";
+  feeds
+
+let run_link_codes (s : script) : string list =
+  List.map (fun o -> code_line (cx_robs o))
+    (run_link (error_mode s) (read_mode s) (nat_of_int (cfg_int s "frag" 2048)) (link_feeds s))
+
+let () = register "link" run_link_engine; register_concretizer "link" concretize_link_script;
+  register_coder "link" run_link_codes
 
 (* engines layer, treader, twriter over the extracted model *)
 
@@ -74,16 +86,30 @@ let run_treader_engine (s : script) : string list =
     | TOverflow -> "overflow"
     | TStall -> "model-out-of-fuel") obs @ ["end"]
 
-let run_twriter_engine (s : script) : string list =
+let twriter_obs (s : script) =
   let ops = List.map (function
     | ["write"; d; h] -> WWrite (n_of_int (int_of_string d), unhex h)
     | ["lsreq"; d] -> WLinkStatus (n_of_int (int_of_string d))
     | ["reset"] -> WReset
     | _ -> failwith "bad twriter op") s.ops in
-  let obs = run_twriter { w_type = role s; w_addr = n_of_int (cfg_int s "addr" 1024) } N0 ops in
-  List.map (function Some b -> "tx " ^ hex b | None -> "reset") obs @ ["end"]
+  run_twriter { w_type = role s; w_addr = n_of_int (cfg_int s "addr" 1024) } N0 ops
+
+let run_twriter_engine (s : script) : string list =
+  List.map (function Some b -> "tx " ^ hex b | None -> "reset") (twriter_obs s) @ ["end"]
+
+(* codes mode (extraction cross-check): the observations through the EXTRACTED serialisers *)
+let run_layer_codes (s : script) : string list =
+  List.map (fun o -> code_line (cx_lobs o))
+    (run_layer (error_mode s) (read_mode s) (nat_of_int (cfg_int s "frag" 2048)) (lcfg_of s) (feeds_of s))
+let run_treader_codes (s : script) : string list =
+  List.map (fun o -> code_line (cx_tobs o))
+    (run_treader (error_mode s) (read_mode s) (nat_of_int (cfg_int s "frag" 2048)) (lcfg_of s) (feeds_of s))
+let run_twriter_codes (s : script) : string list =
+  List.map (fun o -> code_line (cx_wobs o)) (twriter_obs s)
 
 let () =
   register "layer" run_layer_engine; register_concretizer "layer" concretize_link_script;
   register "treader" run_treader_engine; register_concretizer "treader" concretize_link_script;
-  register "twriter" run_twriter_engine
+  register "twriter" run_twriter_engine;
+  register_coder "layer" run_layer_codes; register_coder "treader" run_treader_codes;
+  register_coder "twriter" run_twriter_codes
